@@ -13,7 +13,7 @@ reproduces every row.  No private name (`_pad_command`, `_unpack`, `_build_heade
   frameTable  frame((cmd, payload)) for commands of 0..14 bytes (leading / embedded / trailing
               NUL), several payload sizes and magics, long commands before short ones on ONE
               framer instance; fake-length payloads probe the 2^32 boundary of the length field
-  recvGrid    successive receive_message() outcomes on ~700 one-item streams (every raw command
+  recvGrid    successive receive_message() outcomes on ~580 one-item streams (every raw command
               field variant x every declared length 0..limit+2 x 3 limit configurations, good
               and bad checksum, truncated; every single-bit corruption of the magic, also
               combined with an over-limit length), followed by a tail message
@@ -105,6 +105,10 @@ def recv_streams():
                 # truncated: one byte short of the declared payload; header alone; 23 bytes
                 rows.append((mp, mb, (mk_frame(GRID_MAGIC, field, payload + b'\x09'))[:-1]))
         rows.append((mp, mb, mk_frame(GRID_MAGIC, b'x', b'')[:23]))
+        # declared lengths far beyond the limits (all 32 bits of the field count, unsigned)
+        for field in (b'block', b'x'):
+            for n in (255, 256, 65536, 2 ** 31 - 1, 2 ** 31, 2 ** 32 - 1):
+                rows.append((mp, mb, mk_header(GRID_MAGIC, field, n, bytes(4)) + tail))
         # wrong magic, alone and together with an over-limit length (order of the two tests)
         for bit in range(32):
             m = bytearray(GRID_MAGIC)
@@ -187,8 +191,9 @@ def session_streams():
     items = {
         'm': lambda i: mk_frame(GRID_MAGIC, b'm%d' % i, bytes([i, i])),
         'c': lambda i: mk_header(GRID_MAGIC, b'c%d' % i, 1, bytes(4)) + b'\x55',
-        'g': lambda i: mk_header(b'\xa1\xb2\xc3\xd5', b'g%d' % i, 0, dsha4(b'')),
-        's': lambda i: mk_header(GRID_MAGIC, b's%d' % i, 5, bytes(4)),
+        # (commands that are not valid UTF-8 / ASCII: the handlers must cope with any bytes)
+        'g': lambda i: mk_header(b'\xa1\xb2\xc3\xd5', b'g\xff%d' % i, 0, dsha4(b'')),
+        's': lambda i: mk_header(GRID_MAGIC, b'\xfes%d' % i, 5, bytes(4)),
     }
     seqs = [''.join(t) for k in (1, 2, 3) for t in itertools.product('mcgs', repeat=k)]
     seqs += ['gggg', 'sgsgs', 'mgmsmgm', 'ssssss']
